@@ -36,6 +36,11 @@ static const char* const MODE = "nocheck";
 #error "build with -DTCB_SPAN_THROW_ON_CONTRACT_VIOLATION or -DTCB_SPAN_NO_CONTRACT_CHECKING"
 #endif
 
+#ifndef C16_GETMAX
+#define C16_GETMAX 8   // get<N>(view) is instantiated for N in {-1, 0..C16_GETMAX, PTRDIFF_MAX}; check.py passes nmax+2
+#endif
+#pragma GCC diagnostic ignored "-Wdeprecated-declarations"   // operator()(idx) is [[deprecated]] but public, so it is enumerated
+
 #ifndef C16_PART
 #error "C16_PART must select the element type of this binary"
 #endif
@@ -237,12 +242,12 @@ static std::vector<size_t> alphabet(size_t n)
     return v;
 }
 // out-of-range indices for a view of cnt elements
-static std::vector<size_t> out_indices(size_t cnt)
+static std::vector<size_t> out_indices(size_t cnt, size_t esz)
 {
     std::vector<size_t> v;
     const size_t one = 1;
     const size_t c[] = {cnt, cnt + 1, cnt + 2, one << 31, one << 32, (one << 32) + cnt, one << 61, (one << 61) + (cnt ? cnt - 1 : 0), one << 62,
-                        (one << 62) + (cnt ? cnt - 1 : 0), (one << 63) - 1, one << 63, (one << 63) + cnt, SIZE_MAX - cnt, SIZE_MAX - 1, SIZE_MAX};
+                        (one << 62) + (cnt ? cnt - 1 : 0), (one << 63) - 1, one << 63, (one << 63) + cnt, SIZE_MAX / esz, SIZE_MAX / esz + 1, SIZE_MAX - cnt, SIZE_MAX - 1, SIZE_MAX};
     for (size_t x : c)
     {
         bool dup = x < cnt;
@@ -413,6 +418,55 @@ static void write_probes(Req& rq, const Vw& v, Region<V>& rg, size_t off, size_t
     }
 }
 
+// ---- every public element-access entry point (the list is cross-checked against the header by check.py: ACCESSORS)
+// operator()(idx): present unless TCB_SPAN_NO_FUNCTION_CALL_OPERATOR; detected, so that its absence is a note, not a build failure
+template <class Vw, class = void> struct has_call_op : std::false_type {};
+template <class Vw> struct has_call_op<Vw, decltype(void(std::declval<const Vw&>()(size_t(0))))> : std::true_type {};
+template <class Vw> static typename Vw::pointer call_op(const Vw& v, size_t i, std::true_type) { return &v(i); }
+template <class Vw> static typename Vw::pointer call_op(const Vw&, size_t, std::false_type) { return nullptr; }
+
+static std::string relpos(const void* a, const void* parent) { return "parent" + std::string((const char*)a >= (const char*)parent ? "+" : "") + std::to_string((long long)((const char*)a - (const char*)parent)) + " bytes"; }
+
+// get<N>(view) for one compile-time N: in range => the address of parent element off+N; out of range (N < 0 or N >= size) => rejected in the checked build
+template <std::ptrdiff_t N>
+struct get_one
+{
+    template <class Vw, class V>
+    static void run(Req& rq, const Vw& v, Region<V>& rg, size_t off, size_t cnt, const std::string& vk)
+    {
+        typedef typename Vw::element_type E;
+        const bool in = N >= 0 && size_t(N) < cnt;
+        if (!in && !C16_CHECKED) return;
+        if (in && rq.failed) return;
+        const E* a = nullptr;
+        const char* pn = in ? "get<N>(N<size)" : "get<N>(N>=size)";
+        probe_count(rq, pn, size_t(N), !in);
+        Thrown t = guarded([&] { a = &tcb::get<N>(v); });
+        if (in)
+        {
+            if (t != T_NONE) pviol(rq, vk, pn, "threw", "N = " + s128(N) + " threw " + tname(t));
+            else if (a != rg.elems() + off + size_t(N)) pviol(rq, vk, pn, "wrong_element", "N = " + s128(N) + " refers to " + relpos(a, rg.elems()) + ", expected parent element " + su(off + size_t(N)));
+        }
+        else if (t == T_NONE) pviol(rq, vk, pn, "accepted_out_of_range", "get<" + s128(N) + ">(view) returned a reference (" + relpos(a, rg.elems()) + ") instead of being rejected");
+    }
+};
+template <std::ptrdiff_t N, std::ptrdiff_t Max>
+struct get_range
+{
+    template <class Vw, class V>
+    static void run(Req& rq, const Vw& v, Region<V>& rg, size_t off, size_t cnt, const std::string& vk)
+    {
+        get_one<N>::run(rq, v, rg, off, cnt, vk);
+        get_range<N + 1, Max>::run(rq, v, rg, off, cnt, vk);
+    }
+};
+template <std::ptrdiff_t Max>
+struct get_range<Max, Max>
+{
+    template <class Vw, class V>
+    static void run(Req& rq, const Vw& v, Region<V>& rg, size_t off, size_t cnt, const std::string& vk) { get_one<Max>::run(rq, v, rg, off, cnt, vk); }
+};
+
 template <class Vw, class V>
 static void check_view(Req& rq, const Vw& v, Region<V>& rg, size_t off, size_t cnt)
 {
@@ -428,20 +482,42 @@ static void check_view(Req& rq, const Vw& v, Region<V>& rg, size_t off, size_t c
     if (v.empty() != (cnt == 0)) pviol(rq, vk, "empty()", "wrong", std::string("empty() = ") + (v.empty() ? "true" : "false"));
     if (ext != size_t(DYN) && ext != v.size()) pviol(rq, vk, "extent", "differs_from_size", "static extent " + su(ext) + " but size() = " + su(v.size()));
 
-    // element access inside the view: addresses first, values only when the address is the right one
+    // element access inside the view through EVERY entry point: addresses first, values only when the address is the right one
+    static const char* const acc[] = {"operator[](i<size)", "at(i<size)", "operator()(i<size)", "begin()[i]", "*(begin()+i)", "cbegin()[i]", "rbegin()[size-1-i]", "crbegin()[size-1-i]", "data()[i]"};
+    const bool have_call = has_call_op<Vw>::value;
+    if (!have_call) vf::stat("views_without_operator()", 1);
+    if (v.data() + v.size() != v.end() || v.data() != v.begin()) pviol(rq, vk, "data()+size()", "inconsistent", "data()/size() do not agree with begin()/end()");
     for (size_t i = 0; i < cnt && !rq.failed; ++i)
     {
-        for (int how = 0; how < 2; ++how)
+        for (int how = 0; how < 9; ++how)
         {
-            const char* pn = how == 0 ? "operator[](i<size)" : "at(i<size)";
+            if (how == 2 && !have_call) continue;
+            const char* pn = acc[how];
             const E* a = nullptr;
             probe_count(rq, pn, i, false);
-            Thrown t = guarded([&] { a = how == 0 ? &v[i] : &v.at(i); });
+            Thrown t = guarded([&] {
+                switch (how)
+                {
+                case 0: a = &v[i]; break;
+                case 1: a = &v.at(i); break;
+                case 2: a = call_op(v, i, has_call_op<Vw>()); break;
+                case 3: a = &v.begin()[std::ptrdiff_t(i)]; break;
+                case 4: a = &*(v.begin() + std::ptrdiff_t(i)); break;
+                case 5: a = &v.cbegin()[std::ptrdiff_t(i)]; break;
+                case 6: a = &v.rbegin()[std::ptrdiff_t(cnt - 1 - i)]; break;
+                case 7: a = &v.crbegin()[std::ptrdiff_t(cnt - 1 - i)]; break;
+                default: a = &v.data()[i]; break;
+                }
+            });
             if (t != T_NONE) pviol(rq, vk, pn, "threw", "i = " + su(i) + " threw " + tname(t));
-            else if (a != P + i) pviol(rq, vk, pn, "wrong_element", "i = " + su(i) + " refers to parent" + std::to_string((long long)((const char*)a - (const char*)rg.elems())) + " bytes, expected parent element " + su(off + i));
+            else if (a != P + i) pviol(rq, vk, pn, "wrong_element", "i = " + su(i) + " refers to " + relpos(a, rg.elems()) + ", expected parent element " + su(off + i));
             else if (elem<V>::idof(*a) != rg.model[pos0 + i]) pviol(rq, vk, pn, "wrong_value", "i = " + su(i));
         }
     }
+    // get<N>(view): N = -1 (SIZE_MAX as an index), 0..C16_GETMAX, PTRDIFF_MAX
+    get_one<-1>::run(rq, v, rg, off, cnt, vk);
+    get_range<0, C16_GETMAX>::run(rq, v, rg, off, cnt, vk);
+    get_one<PMAX>::run(rq, v, rg, off, cnt, vk);
     if (cnt > 0 && !rq.failed)
     {
         const E *f = nullptr, *b = nullptr;
@@ -478,7 +554,7 @@ static void check_view(Req& rq, const Vw& v, Region<V>& rg, size_t off, size_t c
         }
     }
     // out of range: at() must throw in every build; operator[] / front / back must be rejected in the checked build
-    const std::vector<size_t> out = out_indices(cnt);
+    const std::vector<size_t> out = out_indices(cnt, sizeof(E));
     for (size_t i : out)
     {
         const E* a = nullptr;
@@ -491,6 +567,13 @@ static void check_view(Req& rq, const Vw& v, Region<V>& rg, size_t off, size_t c
         probe_count(rq, "operator[](i>=size)", i, true);
         t = guarded([&] { a = &v[i]; });
         if (t == T_NONE) pviol(rq, vk, "operator[](i>=size)", "accepted_out_of_range", "[" + nice(i) + "] returned a reference (parent" + std::to_string((long long)((const char*)a - (const char*)rg.elems())) + " bytes) instead of being rejected");
+        if (have_call)
+        {
+            a = nullptr;
+            probe_count(rq, "operator()(i>=size)", i, true);
+            t = guarded([&] { a = call_op(v, i, has_call_op<Vw>()); });
+            if (t == T_NONE) pviol(rq, vk, "operator()(i>=size)", "accepted_out_of_range", "(" + nice(i) + ") returned a reference (" + relpos(a, rg.elems()) + ") instead of being rejected");
+        }
 #endif
     }
 #if C16_CHECKED
